@@ -4,3 +4,4 @@
 
 pub mod public;
 pub mod ffi;
+pub mod proto;
